@@ -602,12 +602,19 @@ pub async fn run_c08(w: &mut World, m: &mut Mon, r: &mut R, t: &Twin) {
             let (ma, mb) = (w.banks[t.a0].mint, w.banks[t.b0].mint);
             let ta_a = w.new_token_account(ma, owner, 1_000_000).await;
             let ta_b = w.new_token_account(mb, owner, 1_000_000).await;
-            let ops: Vec<(&str, Instruction)> = vec![
+            let mut ops: Vec<(&str, Instruction)> = vec![
                 ("deposit", w.ix_deposit(t.acct0, t.a0, owner, ta_a, 100, None)),
                 ("withdraw", w.ix_withdraw(t.acct0, t.a0, owner, ta_a, 1, None)),
                 ("borrow", w.ix_borrow(t.acct0, t.b0, owner, ta_b, 1)),
                 ("repay", w.ix_repay(t.acct0, t.b0, owner, ta_b, 1, None)),
             ];
+            if let Some(vb) = t.venue {
+                // the pass-through instructions follow the same rule (kamino / drift on mint A, solend on mint B)
+                for (dn, wn, b, ta) in [("kamino_deposit", "kamino_withdraw", vb[0], ta_a), ("solend_deposit", "solend_withdraw", vb[2], ta_b), ("drift_deposit", "drift_withdraw", vb[4], ta_a)] {
+                    ops.push((dn, w.ix_venue_deposit(t.acct0, b, owner, ta, 100)));
+                    ops.push((wn, w.ix_venue_withdraw(t.acct0, b, owner, ta, 10, None)));
+                }
+            }
             for (opn, ixn) in ops {
                 let o = w.probe(m, &[ixn], &[kp]).await;
                 m.r.eval();
